@@ -987,3 +987,42 @@ class EndSync:
 
     def exc_RPCError_nothing_triggered(self, exc):
         return no_effect() and unchanged()
+
+
+@contract('rpcinterface:RPCInterface.update_numprocs', props=['C17'])
+class UpdateNumprocs:
+    """'update_numprocs ... in OPERATION only ... otherwise raises BAD_SUPVISORS_STATE without any effect'; unknown
+    program BAD_NAME; numprocs not strictly positive INCORRECT_PARAMETERS.  The post-checks _check_process_insertion /
+    _decrease_numprocs are taken by assumed contracts (see not_decided)."""
+    raises = ('RPCError',)
+    types = {'numprocs': 'int', 'wait': 'bool', 'lazy': 'bool'}
+
+    def pre_valid(self):
+        return valid(self)
+
+    def post_served_only_when_acceptable(self, program_name, numprocs, old):
+        return (fsm_state(old.self) == SupvisorsStates.OPERATION and numprocs > 0
+                and program_name in old.self.supvisors.server_options.program_configs)
+
+    def post_update_requested(self, program_name, numprocs):
+        return (count_effects('supervisor_updater.update_numprocs') == 1
+                and effect_at('supervisor_updater.update_numprocs', 0)[0] == program_name
+                and effect_at('supervisor_updater.update_numprocs', 0)[1] == numprocs
+                and no_effect('starter.start_process', 'fsm.set_state', 'fsm.next'))
+
+    def exc_RPCError_bad_state(self, exc, old):
+        return (exc.code == BAD_STATE) == (fsm_state(old.self) != SupvisorsStates.OPERATION)
+
+    def exc_RPCError_codes(self, program_name, numprocs, exc, old):
+        return (implies(exc.code == Faults.BAD_NAME,
+                        program_name not in old.self.supvisors.server_options.program_configs)
+                and implies(exc.code == Faults.INCORRECT_PARAMETERS, numprocs <= 0)
+                and exc.code != NOT_MANAGED)
+
+    def exc_RPCError_invalid_parameters(self, program_name, numprocs, exc, old):
+        return implies(fsm_state(old.self) == SupvisorsStates.OPERATION
+                       and (numprocs <= 0 or program_name not in old.self.supvisors.server_options.program_configs),
+                       exc.code in STRATEGY_CODES)
+
+    def exc_RPCError_rejected_cleanly(self, exc):
+        return rejected_cleanly(exc)
